@@ -423,8 +423,9 @@ func classify(ps []piece) (unaryAt []bool, dangling bool) {
 }
 
 // F': numeric literals replaced by boxed variables; ok=false when some literal is not lexically isolated
-func constantFree(ps []piece, unaryAt []bool) (out []piece, consts map[string]float64, ok bool) {
+func constantFree(ps []piece, unaryAt []bool) (out []piece, consts map[string]float64, ctexts map[string]string, ok bool) {
 	consts = map[string]float64{}
+	ctexts = map[string]string{}
 	out = make([]piece, len(ps))
 	copy(out, ps)
 	n := 0
@@ -434,26 +435,27 @@ func constantFree(ps []piece, unaryAt []bool) (out []piece, consts map[string]fl
 		}
 		v, isNum := literalValue(p.T)
 		if !isNum {
-			return nil, nil, false
+			return nil, nil, nil, false
 		}
 		if a := significant(ps, i, -1); a >= 0 {
 			k := ps[a].K
 			if !(k == pOp || k == pL || k == pR || (k == pMinus) || (k == pBang && unaryAt[a])) {
-				return nil, nil, false
+				return nil, nil, nil, false
 			}
 		}
 		if b := significant(ps, i, 1); b >= 0 {
 			k := ps[b].K
 			if !(k == pOp || k == pL || k == pR || k == pMinus) {
-				return nil, nil, false
+				return nil, nil, nil, false
 			}
 		}
 		name := fmt.Sprintf("k%d", n)
 		n++
 		consts[name] = v
+		ctexts[name] = p.T
 		out[i] = piece{pVar, "[" + name + "]"}
 	}
-	return out, consts, true
+	return out, consts, ctexts, true
 }
 
 // ---------------------------------------------------------------- one compiled formula, many evaluations
@@ -493,6 +495,65 @@ type binding struct {
 	label   string
 	val     func(string) float64
 	missing func(string) bool
+	text    func(string) string // when set: the decimal TEXT the {! ..} context holds; the value is strconv.ParseFloat of it
+}
+
+// ---- decimal texts as bindings: what a matched field looks like. Shortest round-trip texts of
+// arbitrary float64 values (15-17 significant digits), neighbours of powers of ten, and long digit
+// strings (17-19 digits, leading and trailing zeros). The value of a text is strconv.ParseFloat's
+// (the oracle compileToken itself uses for a literal with the same text).
+var textPool = makeTextPool()
+
+func makeTextPool() []string {
+	r := NewRng(0xC19)
+	var ts []string
+	plain := func(v float64) string {
+		t := strconv.FormatFloat(v, 'g', -1, 64)
+		if strings.ContainsAny(t, "eE") {
+			t = strconv.FormatFloat(v, 'f', -1, 64)
+		}
+		return t
+	}
+	for i := 0; i < 400; i++ {
+		v := float64(r.U64()>>11) / (1 << 53) * math.Pow(10, float64(r.Range(-3, 7)))
+		if r.Bool() {
+			v = -v
+		}
+		ts = append(ts, plain(v))
+	}
+	for k := -3; k <= 8; k++ {
+		p := math.Pow(10, float64(k))
+		for _, v := range []float64{math.Nextafter(p, 0), math.Nextafter(p, math.Inf(1)), -math.Nextafter(p, 0), math.Nextafter(math.Nextafter(p, 0), 0)} {
+			ts = append(ts, plain(v))
+		}
+	}
+	ts = append(ts,
+		"0.1000000000000000055", "1.0000000000000002220", "000123.4567890123456", "0.000001234567890123", "123456789012345678.9",
+		"1234567890.123456789", "-0.3000000000000000444", "0.30000000000000004", "9007199254740993", "9007199254740992.5", "1.000000000000000000",
+		"0.9222122589217269", "975.2416188605783", "361.80548048031693", "-1435046.9221322283", "0.40380328579570035",
+		"4.35", "0.1", "100.10", "2.675", "1.005", "8.41", "0.07", "-17.50", "0000.5000", "99999999999999.99", "0.0000000000000001234",
+		"17.0", "5.", ".25", "-.75", "1234567.8901234567", "999999999999999.9", "0.999999999999999944", "179769313486231570000000000000.5")
+	for _, t := range ts {
+		if _, err := strconv.ParseFloat(t, 64); err != nil {
+			panic("text pool: " + t)
+		}
+	}
+	return ts
+}
+
+func textValue(t string) float64 {
+	v, _ := strconv.ParseFloat(t, 64)
+	return v
+}
+
+// a literal of the formula whose text means the same to ParseFloat as to compileToken (not 017, 0x10, 0b1)
+func plainLiteral(t string) bool {
+	v, ok := literalValue(t)
+	if !ok {
+		return false
+	}
+	w, err := strconv.ParseFloat(t, 64)
+	return err == nil && sameBits(v, w)
 }
 
 func never(string) bool { return false }
@@ -501,17 +562,49 @@ func bindings() []binding {
 	nan := func(string) float64 { return math.NaN() }
 	inf := func(s string) float64 { return math.Inf(1 - 2*(hashStr(s)%2)) }
 	bs := []binding{
-		{"empty", profile(0), func(string) bool { return true }}, // the all-empty, probe-like context
-		{"p1", profile(1), never}, {"p2", profile(2), never}, {"p3", profile(3), never},
-		{"p4", profile(4), never}, {"p5", profile(5), never}, {"p6", profile(6), never}, {"p7", profile(7), never},
-		{"nan", nan, never}, {"inf", inf, never},
-		{"missing-some", profile(3), func(s string) bool { return hashStr(s)%2 == 0 }},
-		{"missing-other", profile(4), func(s string) bool { return hashStr(s)%2 == 1 }},
+		{"empty", profile(0), func(string) bool { return true }, nil}, // the all-empty, probe-like context
+		{"p1", profile(1), never, nil}, {"p2", profile(2), never, nil}, {"p3", profile(3), never, nil},
+		{"p4", profile(4), never, nil}, {"p5", profile(5), never, nil}, {"p6", profile(6), never, nil}, {"p7", profile(7), never, nil},
+		{"nan", nan, never, nil}, {"inf", inf, never, nil},
+		{"missing-some", profile(3), func(s string) bool { return hashStr(s)%2 == 0 }, nil},
+		{"missing-other", profile(4), func(s string) bool { return hashStr(s)%2 == 1 }, nil},
 	}
 	return bs
 }
 
-var allBindings = bindings()
+var staticBindings = bindings()
+
+const nTextBindings = 4
+const nBindings = 12 + nTextBindings
+
+// the bindings of one formula: the static ones plus decimal texts chosen from the formula text and
+// the variable name; "text-own" binds every variable to the text of one of the formula's own literals
+func bindingsFor(f string, ps []piece) []binding {
+	bs := append([]binding(nil), staticBindings...)
+	h := hashStr(f)
+	fromPool := func(j int) func(string) string {
+		return func(s string) string { return textPool[(h*31+hashStr(s)*7+j*13)%len(textPool)] }
+	}
+	var own []string
+	for _, p := range ps {
+		if p.K == pNum && plainLiteral(p.T) {
+			own = append(own, p.T)
+		}
+	}
+	ownText := fromPool(3)
+	if len(own) > 0 {
+		ownText = func(s string) string { return own[(h+hashStr(s))%len(own)] }
+	}
+	for j, tf := range []func(string) string{fromPool(0), fromPool(1), fromPool(2), ownText} {
+		tf := tf
+		label := fmt.Sprintf("text-%d", j)
+		if j == 3 {
+			label = "text-own-literal"
+		}
+		bs = append(bs, binding{label, func(s string) float64 { return textValue(tf(s)) }, never, tf})
+	}
+	return bs
+}
 
 func (b binding) math() *bindCtx {
 	return &bindCtx{def: func(s string) float64 {
@@ -522,6 +615,13 @@ func (b binding) math() *bindCtx {
 	}}
 }
 
+func (b binding) render(s string) string {
+	if b.text != nil {
+		return b.text(s)
+	}
+	return strconv.FormatFloat(b.val(s), 'g', -1, 64)
+}
+
 func (b binding) kb(names map[string]bool, idx map[int]bool) (*kbCtx, bool) {
 	c := &kbCtx{names: map[string]string{}, idx: map[int]string{}}
 	bad := false
@@ -530,7 +630,7 @@ func (b binding) kb(names map[string]bool, idx map[int]bool) (*kbCtx, bool) {
 			bad = true
 			continue
 		}
-		c.names[n] = strconv.FormatFloat(b.val(n), 'g', -1, 64)
+		c.names[n] = b.render(n)
 	}
 	for i := range idx {
 		k := "#" + strconv.Itoa(i)
@@ -538,7 +638,7 @@ func (b binding) kb(names map[string]bool, idx map[int]bool) (*kbCtx, bool) {
 			bad = true
 			continue
 		}
-		c.idx[i] = strconv.FormatFloat(b.val(k), 'g', -1, 64)
+		c.idx[i] = b.render(k)
 	}
 	return c, bad
 }
@@ -547,7 +647,7 @@ func (b binding) kb(names map[string]bool, idx map[int]bool) (*kbCtx, bool) {
 // then repeats (same binding twice in a row), a reversed pass and the empty context in the middle
 func sequenceOrder(f string) []int {
 	h := hashStr(f)
-	n := len(allBindings)
+	n := nBindings
 	var order []int
 	if h%2 == 0 {
 		order = append(order, 0)
@@ -573,7 +673,8 @@ func kbTemplate(f string) (string, bool) {
 
 const concEvals = 800
 
-func sharedObjectRuns(f string, ex stdmath.Expr, t *tree, out *c19Out, tags []string) []string {
+func sharedObjectRuns(f string, ps []piece, ex stdmath.Expr, t *tree, out *c19Out, tags []string) []string {
+	allBindings := bindingsFor(f, ps)
 	fail := func(format string, a ...any) {
 		if out.ValsOK {
 			out.ValsOK, out.ValsNote = false, fmt.Sprintf(format, a...)
@@ -630,7 +731,8 @@ func sharedObjectRuns(f string, ex stdmath.Expr, t *tree, out *c19Out, tags []st
 		if kb != nil {
 			s, p := buildKey(kb, w.kctx)
 			if p || s != w.s {
-				fail("sequence step %d (binding %s) through %s: BuildKey=%q panic=%v, value for this binding alone=%q", step, allBindings[bi].label, out.Template, s, p, w.s)
+				fail("sequence step %d (binding %s: names %v, matches %v) through %s: BuildKey=%q panic=%v, value for this binding alone=%q",
+					step, allBindings[bi].label, w.kctx.names, w.kctx.idx, out.Template, s, p, w.s)
 				break
 			}
 		}
@@ -700,6 +802,60 @@ func sharedObjectRuns(f string, ex stdmath.Expr, t *tree, out *c19Out, tags []st
 		out.Conc += fmt.Sprintf(" + %d x %d BuildKey of %s", g, concEvals/2, out.Template)
 	}
 	return append(tags, "concurrent")
+}
+
+// The constant-free form through {! ..}: every literal of F becomes a variable bound to the literal's
+// own TEXT (as a matched field would carry it), the other variables to decimal texts; BuildKey must
+// render the value F itself has (reference: the dumped constant-free tree with the literals' values).
+func constantAsBoundText(f, f2 string, t2 *tree, consts map[string]float64, ctexts map[string]string, out *c19Out) {
+	for _, t := range ctexts {
+		if !plainLiteral(t) {
+			return // 017, 0x10, 0b1: not the same number as a field
+		}
+	}
+	tpl, ok := kbTemplate(f2)
+	if !ok {
+		return
+	}
+	kb, errs := stdlib.NewStdKeyBuilder().Compile(tpl)
+	if errs != nil || kb == nil {
+		out.ValsOK, out.ValsNote = false, fmt.Sprintf("the expression %s does not compile: %v", tpl, errs)
+		return
+	}
+	names, idx := map[string]bool{}, map[int]bool{}
+	t2.vars(names, idx)
+	h := hashStr(f)
+	for j := 0; j < 3; j++ {
+		text := func(s string) string {
+			if t, isConst := ctexts[s]; isConst {
+				return t
+			}
+			return textPool[(h*17+hashStr(s)*5+j*11)%len(textPool)]
+		}
+		kc := &kbCtx{names: map[string]string{}, idx: map[int]string{}}
+		mc := &bindCtx{names: map[string]float64{}, idx: map[int]float64{}, def: func(string) float64 { return 0 }}
+		for n := range names {
+			kc.names[n] = text(n)
+			mc.names[n] = textValue(text(n))
+			if v, isConst := consts[n]; isConst {
+				mc.names[n] = v
+			}
+		}
+		for i := range idx {
+			k := "#" + strconv.Itoa(i)
+			kc.idx[i] = text(k)
+			mc.idx[i] = textValue(text(k))
+		}
+		st := &refState{}
+		want := strconv.FormatFloat(st.eval(t2, mc), 'f', -1, 64)
+		got, p := buildKey(kb, kc)
+		if p || got != want {
+			out.ValsOK = false
+			out.ValsNote = fmt.Sprintf("constants as bound texts: %s with names %v, matches %v gives %q (panic=%v); the formula with the same texts as constants has the value %q",
+				tpl, kc.names, kc.idx, got, p, want)
+			return
+		}
+	}
 }
 
 func buildKey(kb *expressions.CompiledKeyBuilder, c expressions.KeyBuilderContext) (s string, panicked bool) {
@@ -800,7 +956,7 @@ func c19CaseInner(ps []piece, tags []string) Case {
 	intOp := hasIntOp(f)
 	fault := false
 	paired := false
-	if ps2, consts, ok := constantFree(ps, unaryAt); ok {
+	if ps2, consts, ctexts, ok := constantFree(ps, unaryAt); ok {
 		f2 := join(ps2)
 		ex2, outcome2, _ := compileImpl(f2)
 		if f2 != f {
@@ -843,6 +999,9 @@ func c19CaseInner(ps []piece, tags []string) Case {
 			if outcome == "panic" && !fault {
 				out.ValsOK, out.ValsNote = false, "Compile panics although no integer operator faults"
 			}
+			if out.ValsOK && outcome == "ok" && len(ctexts) > 0 {
+				constantAsBoundText(f, f2, t2, consts, ctexts, &out)
+			}
 		}
 	}
 	if intOp && (fault || !paired) {
@@ -850,7 +1009,7 @@ func c19CaseInner(ps []piece, tags []string) Case {
 	}
 	// ONE compiled object, many evaluations: sequences of bindings, then several goroutines at once
 	if outcome == "ok" {
-		tags = sharedObjectRuns(f, ex, t, &out, tags)
+		tags = sharedObjectRuns(f, ps, ex, t, &out, tags)
 	}
 	if paired {
 		tags = append(tags, "values-checked")
@@ -1149,7 +1308,7 @@ func gen(r *Rng, n int, tier string) []Case {
 		d := c.Desc.(c19Desc)
 		if d.Impl.Paired != "" {
 			u, _ := classify(ps)
-			if ps2, _, ok := constantFree(ps, u); ok {
+			if ps2, _, _, ok := constantFree(ps, u); ok {
 				cases = append(cases, c19Case(ps2, []string{tag + "/constant-free"}))
 			}
 		}
@@ -1163,6 +1322,22 @@ func gen(r *Rng, n int, tier string) []Case {
 	}
 	for _, ps := range exhaustive(L) {
 		add(ps, "exhaustive")
+	}
+	// a decimal text as a constant next to variables that the text bindings bind to the same text
+	for i := 0; i < 60+n/50; i++ {
+		txt := strings.TrimPrefix(Pick(r, textPool), "-")
+		lit := piece{pNum, txt}
+		v := Pick(r, []piece{{pVar, "[0]"}, {pVar, "x"}, {pVar, "[1]"}, {pVar, "[val]"}})
+		switch i % 4 {
+		case 0:
+			add([]piece{v, op("=="), lit}, "text-literal")
+		case 1:
+			add([]piece{v, {pSp, " "}, op("-"), {pSp, " "}, {pL, "("}, lit, {pR, ")"}}, "text-literal")
+		case 2:
+			add([]piece{{pL, "("}, v, op("+"), {pNum, "1"}, {pR, ")"}, op("*"), {pNum, "2"}, op("=="), {pL, "("}, lit, op("+"), {pNum, "1"}, {pR, ")"}, op("*"), {pNum, "2"}}, "text-literal")
+		default:
+			add([]piece{lit, op("/"), v, op("<="), {pNum, "1"}, op("&&"), v, op(">="), lit}, "text-literal")
+		}
 	}
 	for i := 0; i < n; i++ {
 		switch i % 4 {
@@ -1204,6 +1379,9 @@ func main() {
 			"(optionally the all-empty probe-like context first, 7 value mixes, all NaN, +-Inf, two bindings with missing variables, immediate repeats, a reversed pass, the empty context again; the bare context is one object whose content changes) " +
 			"and (b) CONCURRENTLY from 4-8 goroutines behind a start barrier, 800 Eval + 400 BuildKey each over different bindings (formulas with a variable and an operator; every second one of the exhaustive scope); " +
 			"each single result must equal the reference value of its own binding alone (tree of the fresh compile; <BAD-TYPE> when a variable is missing). " +
+			"Bindings through {! ..} include DECIMAL TEXTS as a matched field carries them: shortest round-trip texts of random float64 values (15-17 significant digits), neighbours of powers of ten, 17-19 digit strings with leading/trailing zeros " +
+			"(4 such bindings per formula, one of them binding every variable to the text of one of the formula's own literals; value of a text = strconv.ParseFloat); the constant-free form is also run through {! ..} with every literal bound as its own text " +
+			"and must render the value of the formula with the texts as constants; plus formulas `v == TEXT`, `v - (TEXT)`, `(v+1)*2 == (TEXT+1)*2` over those texts. " +
 			"Each case runs under a 4 s limit: a panic or hang is recorded as that case's outcome; after 4 hangs formulas sharing an operator with all hung ones are skipped. " +
 			"Distinct = distinct formula text; non-trivial = rejected, or uses a group/function/unary/non-decimal literal, or at least two binary operators.",
 		Gen:    gen,
